@@ -164,6 +164,9 @@ def r3_periodic(repo: Repo, rep):
         rep.check(R, distinct, init.site(), init.fq, "two _setup_data_functions evaluations, each returning its own container",
                   f"left = {dump(l)[:70]}, right = {dump(r)[:70]}; helper returns a fresh container: {fresh}", "left/right containers")
         if two_calls:
+            src_ok = bool(l.args) and bool(r.args) and isinstance(l.args[0], ast.Name) and l.args[0].id in init.params and dump(r.args[0]) == dump(l.args[0])
+            rep.check(R, src_ok, init.site(), init.fq, "both sides are set up from the user's data functions (not from the other side's, possibly pre-evaluated, container)",
+                      f"left from {dump(l.args[0])[:50] if l.args else '-'}, right from {dump(r.args[0])[:50] if r.args else '-'}", "a side set up from the other side's container")
             ls, rs = dump(l.args[1]), dump(r.args[1])
             ok = "self.left_sampler" in ls and "self.right_sampler" in rs and "self.right_sampler" not in ls and "self.left_sampler" not in rs
             rep.check(R, ok, init.site(), init.fq, "left data from the left sampler, right data from the right sampler", f"{ls[:70]} | {rs[:70]}", f"{ls[:60]}|{rs[:60]}")
@@ -284,6 +287,57 @@ def r4_forward_and_ctor_calls(repo: Repo, rep):
             rep.check(R, not bad, init.site(), init.fq, "no state-changing method is called on a constructor argument", str(bad[:2]), str(bad[:2]))
 
 
+GLOBAL_SETTERS = ("torch.set_grad_enabled", "torch.set_default_dtype", "torch.set_default_device", "torch.manual_seed", "torch.seed", "torch.use_deterministic_algorithms",
+                  "torch.set_default_tensor_type", "torch.autograd.set_grad_enabled", "torch.set_printoptions", "torch.set_num_threads", "np.random.seed", "random.seed")
+
+
+def r4c_no_process_wide_switch(repo: Repo, rep):
+    R = rep.rule("R-C14-4c", "conditions, samplers and user-function wrappers flip no process-wide switch (grad mode, default dtype, seeds) except as a `with` context", floor=30,
+                 why="torch.set_grad_enabled(False) as a statement stays in force after the call: every condition evaluated afterwards builds no graph")
+    for name, m in repo.modules.items():
+        if not (".conditions." in name or ".samplers." in name or name.endswith(".user_fun") or ".spaces." in name):
+            continue
+        for ci in m.classes.values():
+            for fi in ci.methods.values():
+                in_with = {id(c) for w in ast.walk(fi.node) if isinstance(w, ast.With) for it in w.items for c in ast.walk(it.context_expr)}
+                bad = [dump(c)[:60] for c in ast.walk(fi.node) if isinstance(c, ast.Call) and attr_chain(c.func) in GLOBAL_SETTERS and id(c) not in in_with]
+                rep.saw(fi)
+                rep.check(R, not bad, fi.site(), fi.fq, "no process-wide state is set", str(bad[:2]), f"global switch {bad[:1]}")
+
+
+def r4b_containers_copied(repo: Repo, rep):
+    R = rep.rule("R-C14-4b", "data sets that re-order their data in place (shuffle) do so on their own container: a list handed in by the user is copied first", floor=1,
+                 why="`self.data = data` followed by `self.data[i] = data[i][perm]` writes the permuted entries into the user's list: a second loader built from it sees them")
+    seen = 0
+    for name, m in repo.modules.items():
+        if ".utils.data." not in name:
+            continue
+        for ci in m.classes.values():
+            init = ci.methods.get("__init__")
+            if init is None:
+                continue
+            params = set(init.params[1:])
+            stores_any = False
+            bad = []
+            for p in paths(init.node, expand_self=False):
+                if p.ret is RAISE:
+                    continue
+                for e in p.events:
+                    if e.kind == "store" and e.raw is not None and isinstance(e.raw.value, ast.Attribute) and dump(e.raw.value.value) == "self":
+                        stores_any = True
+                        held = p.attrs.get(dump(e.raw.value))
+                        if isinstance(held, ast.Name) and held.id in params:
+                            bad.append(f"{dump(e.raw.value)} is the caller's `{held.id}`; {dump(e.node)[:60]}")
+            if not stores_any:
+                continue
+            seen += 1
+            rep.saw(init)
+            bad = sorted(set(bad))
+            rep.check(R, not bad, init.site(), init.fq, "in-place stores go to a container created by the constructor", str(bad[:2]), str(bad[:2]))
+    if seen == 0:
+        rep.undecided(R, "src/torchphysics/utils/data", "data sets", "a constructor that stores into its data container", "none found")
+
+
 def r5_module_state(repo: Repo, rep):
     R = rep.rule("R-C14-5", "wrapping user functions / constructing conditions writes no module-level state (no global cache keyed by less than the whole function)", floor=3,
                  why="a process-wide cache makes a wrapper's behaviour depend on which other wrappers were built before it")
@@ -323,6 +377,8 @@ def run(repo: Repo, rep):
     r1b_setup(repo, rep)
     r3_periodic(repo, rep)
     r4_forward_and_ctor_calls(repo, rep)
+    r4b_containers_copied(repo, rep)
+    r4c_no_process_wide_switch(repo, rep)
     r5_module_state(repo, rep)
     from .c13 import r5_copy_on_partial, r6_no_alias  # calling a data function must not write the shared coordinate mapping / wrapper state
     r5_copy_on_partial(repo, rep)
